@@ -145,7 +145,7 @@ PROPS = {
         "deterministic build: schedule decided at every transport operation and library yield point, poisoned LIFO/FIFO pools, custom (de)compressors "
         "that park mid-operation, detection of double Put; oracle: each call's result == its solo expectation, no foreign tag anywhere, values "
         "handed to user code still equal their at-receipt copies at the end of the run; -race build of the same world with happens-before-free "
-        "gates (also over the C14 and C15 worlds, whose programs stress sender / receiver / request goroutine of one call): a race report whose "
+        "gates (also over the C14, C15 and C08 worlds: sender / receiver / request goroutine of one call, shared compressor pools): a race report whose "
         "racing accesses are inside connect-go is a violation; distinct = distinct scheduler-log hash",
-        6000, 100000, race=True, race_also=["C14", "C15"], quick_extra={"race_runs": 600}, thorough_extra={"race_runs": 20000}),
+        6000, 100000, race=True, race_also=["C14", "C15", "C08"], quick_extra={"race_runs": 600}, thorough_extra={"race_runs": 20000}),
 }
